@@ -587,7 +587,24 @@ where
     fn next(&mut self) -> Option<Self::Item> {
         loop {
             if let Some(node) = self.inner.next() {
-                let path = self.path.join(node.name());
+                // A node name must be exactly one normal path component. Anything else (empty, `.`, `..`,
+                // containing a path separator or NUL, absolute paths) would make the yielded path point
+                // outside of the tree which is streamed, e.g. outside of the destination of a restore.
+                let name = node.name();
+                let mut components = Path::new(&name).components();
+                let is_plain = matches!(
+                    (components.next(), components.next()),
+                    (Some(Component::Normal(comp)), None) if comp == name
+                ) && !name.as_encoded_bytes().contains(&0);
+                if !is_plain {
+                    return Some(Err(RusticError::new(
+                        ErrorKind::InvalidInput,
+                        "Invalid node name `{name}` in tree below `{path}`: a node name must be a single path component.",
+                    )
+                    .attach_context("name", node.name.clone())
+                    .attach_context("path", self.path.display().to_string())));
+                }
+                let path = self.path.join(&name);
                 if self.recursive
                     && let Some(id) = node.subtree
                 {
